@@ -1,11 +1,25 @@
 // Driver of property C03 (backtrace completeness + trace well-formedness). See props/C03.json.
+//
+// For every generated package (many cases each) and for eager and on-demand summarisation:
+//  1. run the REAL analysis (analysis/backtrace.Analyze) in-process;
+//  2. dump the REAL linked summary graph and every REAL trace to the compiled Lean oracle, which
+//     evaluates the proved criterion `traceWFB` (= Spec `TraceWF (Linked G)`, theorem
+//     real_trace_criterion), the weak variant, and the replay of the trace in the model
+//     (`replayB`: each step is a candidate of `BackVisit.expand`);
+//  3. compare the set of analysis entry arguments with the model's `entryArgs`;
+//  4. run the generated program natively for all valuations of its branch word and demand that
+//     every origin observed at a backtrace-point argument occurs in some REAL trace of it.
 package main
 
 import (
 	"fmt"
+	"go/constant"
 	"os"
+	"os/exec"
 	"path/filepath"
+	"regexp"
 	"sort"
+	"strconv"
 	"strings"
 
 	"github.com/awslabs/ar-go-tools/analysis/backtrace"
@@ -24,7 +38,7 @@ type realRun struct {
 }
 
 // runReal runs the REAL backtrace analysis in-process on the package in dir.
-func runReal(dir string, onDemand bool, pkgPath string) (rr realRun) {
+func runReal(dir string, onDemand bool) (rr realRun) {
 	prog, pkgs, err := lib.LoadSSA(dir, ssa.InstantiateGenerics, true, ".")
 	if err != nil {
 		rr.err = err
@@ -34,21 +48,362 @@ func runReal(dir string, onDemand bool, pkgPath string) (rr realRun) {
 	cfg.LogLevel = int(config.ErrLevel)
 	cfg.SummarizeOnDemand = onDemand
 	cfg.SlicingProblems = []config.SlicingSpec{{BacktracePoints: []config.CodeIdentifier{
-		config.NewCodeIdentifier(config.CodeIdentifier{Package: "^" + pkgPath + "$", Method: "^sink[0-9]*$"}),
+		config.NewCodeIdentifier(config.CodeIdentifier{Package: "^vprog$", Method: "^sink[A-Z]?$"}),
 	}}}
-	defer func() {
-		if r := recover(); r != nil {
-			rr.panic = fmt.Sprint(r)
-		}
+	func() {
+		defer func() {
+			if r := recover(); r != nil {
+				rr.panic = fmt.Sprint(r)
+			}
+		}()
+		rr.res, rr.err = backtrace.Analyze(config.NewLogGroup(cfg), cfg, prog, pkgs)
 	}()
-	rr.res, rr.err = backtrace.Analyze(config.NewLogGroup(cfg), cfg, prog, pkgs)
 	rr.state = rr.res.Graph.AnalyzerState
 	if rr.state != nil {
-		rr.d = dumpGraph(rr.state, func(f *ssa.Function) bool {
-			return f != nil && f.Pkg != nil && f.Pkg.Pkg.Path() == pkgPath
-		})
+		rr.d = dumpGraph(rr.state, nil)
 	}
 	return
+}
+
+var sinkName = regexp.MustCompile(`^sink[A-Z]?$`)
+var marker = regexp.MustCompile(`#(\d+)#`)
+
+// sinkID returns the constant first argument of a call to a sink, -1 otherwise.
+func sinkID(c *df.CallNode) int {
+	if c == nil || c.Callee() == nil || !sinkName.MatchString(c.Callee().Name()) || len(c.Args()) < 2 {
+		return -1
+	}
+	if k, ok := c.Args()[0].Value().(*ssa.Const); ok && k.Value != nil && k.Value.Kind() == constant.Int {
+		v, _ := constant.Int64Val(k.Value)
+		return int(v)
+	}
+	return -1
+}
+
+// originsOf: markers of the origins occurring in a trace: calls to srcK, constants "#K#" passed as arguments.
+func originsOf(t backtrace.Trace, into map[int]bool) {
+	for _, tn := range t {
+		switch n := tn.GraphNode.(type) {
+		case *df.CallNode:
+			if n.Callee() != nil && strings.HasPrefix(n.Callee().Name(), "src") {
+				if k, err := strconv.Atoi(n.Callee().Name()[3:]); err == nil {
+					into[k] = true
+				}
+			}
+		case *df.CallNodeArg:
+			if c, ok := n.Value().(*ssa.Const); ok && c.Value != nil && c.Value.Kind() == constant.String {
+				for _, m := range marker.FindAllStringSubmatch(constant.StringVal(c.Value), -1) {
+					k, _ := strconv.Atoi(m[1])
+					into[k] = true
+				}
+			}
+		}
+	}
+}
+
+// nativeRun executes the program and returns sink id -> set of markers seen in the argument.
+func nativeRun(dir string) (map[int]map[int]bool, error) {
+	cmd := exec.Command("go", "run", ".")
+	cmd.Dir = dir
+	cmd.Env = append(os.Environ(), "GOFLAGS=-mod=mod", "GOPROXY=off", "GOSUMDB=off", "GOTOOLCHAIN=local", "GOWORK=off")
+	out, err := cmd.CombinedOutput()
+	if err != nil {
+		return nil, fmt.Errorf("%v: %s", err, tail(string(out), 2000))
+	}
+	res := map[int]map[int]bool{}
+	for _, line := range strings.Split(string(out), "\n") {
+		f := strings.SplitN(line, " ", 3)
+		if len(f) < 2 || f[0] != "K" {
+			continue
+		}
+		id, err := strconv.Atoi(f[1])
+		if err != nil {
+			continue
+		}
+		if res[id] == nil {
+			res[id] = map[int]bool{}
+		}
+		if len(f) == 3 {
+			for _, m := range marker.FindAllStringSubmatch(f[2], -1) {
+				k, _ := strconv.Atoi(m[1])
+				res[id][k] = true
+			}
+		}
+	}
+	return res, nil
+}
+
+func tail(s string, n int) string {
+	if len(s) > n {
+		return s[len(s)-n:]
+	}
+	return s
+}
+
+func setStr(m map[int]bool) string {
+	var ks []int
+	for k := range m {
+		ks = append(ks, k)
+	}
+	sort.Ints(ks)
+	return fmt.Sprint(ks)
+}
+
+// input is one package to analyse.
+type input struct {
+	name     string // unique within the run; part of finding keys for the fixed corpus
+	src      string
+	corpus   bool
+	sinkOps  map[int][]string
+	features map[string]int
+}
+
+type checker struct {
+	rep *lib.Report
+}
+
+func (ck *checker) key(in *input, what string, sink int) string {
+	if in.corpus {
+		return fmt.Sprintf("corpus:%s:%s", in.name, what)
+	}
+	return fmt.Sprintf("gen:%s:%s:sink%d:seed%d", in.name, what, sink, lib.Seed())
+}
+
+func (ck *checker) check(in *input) {
+	rep := ck.rep
+	ndir := lib.WorkDir("C03", "native-"+in.name)
+	lib.WriteProgram(ndir, "vprog", map[string]string{"main.go": in.src})
+	truth, nerr := nativeRun(ndir)
+	if nerr != nil {
+		rep.Fail("harness-native:"+in.name, "generated program does not run natively: "+nerr.Error(), []byte(in.src), true)
+		return
+	}
+	for _, od := range []bool{false, true} {
+		mode := "eager"
+		if od {
+			mode = "ondemand"
+		}
+		dir := lib.WorkDir("C03", "prog-"+in.name+"-"+mode)
+		lib.WriteProgram(dir, "vprog", map[string]string{"main.go": in.src})
+		rr := runReal(dir, od)
+		if rr.panic != "" || rr.err != nil || rr.d == nil {
+			what := fmt.Sprintf("backtrace.Analyze (%s) fails on a well-typed program (no trace is reported at all): panic=%q err=%v", mode, rr.panic, rr.err)
+			missing := 0
+			for _, ms := range truth {
+				missing += len(ms)
+			}
+			rep.Fail(ck.key(in, "crash", 0), what, []byte(in.src), missing == 0)
+			rep.Count("analysis-crash")
+			continue
+		}
+		ck.compare(in, mode, od, rr, truth)
+	}
+}
+
+func (ck *checker) compare(in *input, mode string, od bool, rr realRun, truth map[int]map[int]bool) {
+	rep := ck.rep
+	d := rr.d
+	// mark backtrace points / go-defer for the model's entry selection
+	var ob strings.Builder
+	ob.WriteString(d.oracleText(func(n *dnode) (goDefer, isPoint bool) {
+		c, ok := n.gn.(*df.CallNode)
+		if !ok {
+			return false, false
+		}
+		switch c.CallSite().(type) {
+		case *ssa.Go, *ssa.Defer:
+			goDefer = true
+		}
+		isPoint = c.Callee() != nil && c.Callee().Pkg != nil && c.Callee().Pkg.Pkg.Path() == "vprog" && sinkName.MatchString(c.Callee().Name())
+		return
+	}))
+	fmt.Fprintf(&ob, "cfg %d 0\nhyp\n", b01(od))
+	type tref struct {
+		entry df.GraphNode
+		idx   int
+	}
+	var trefs []tref
+	var entries []df.GraphNode
+	for e := range rr.res.Traces {
+		entries = append(entries, e)
+	}
+	sort.Slice(entries, func(i, j int) bool { return d.idOf[entries[i]] < d.idOf[entries[j]] })
+	unknownNode := false
+	for _, e := range entries {
+		for i, t := range rr.res.Traces[e] {
+			var ids []int
+			for _, tn := range t {
+				id, ok := d.idOf[tn.GraphNode]
+				if !ok {
+					unknownNode = true
+					id = len(d.nodes) // out of range: the oracle rejects the step
+				}
+				ids = append(ids, id)
+			}
+			fmt.Fprintf(&ob, "trace %d %s\n", len(trefs), ints(ids))
+			trefs = append(trefs, tref{e, i})
+		}
+	}
+	for i, e := range entries {
+		fmt.Fprintf(&ob, "run %d %d 100000\n", i, d.idOf[e])
+	}
+	os.WriteFile(filepath.Join(lib.Root(), ".work", "C03", "oracle-"+in.name+"-"+mode+".txt"), []byte(ob.String()), 0o644)
+	out, err := lib.RunOracle("oracle_c03", []byte(ob.String()))
+	want := 1 + len(trefs) + len(entries)
+	if err != nil || len(out) != want {
+		rep.Fail("oracle-run:"+in.name, fmt.Sprintf("oracle failed: %v (%d lines for %d requests) %s", err, len(out), want, strings.Join(out, "|")), []byte(ob.String()), true)
+		return
+	}
+	if unknownNode {
+		rep.Count("trace-node-outside-dump")
+	}
+	// --- hypotheses / entry selection
+	hyp := parseKV(out[0])
+	tupleOK := hyp["tuple"] == "1"
+	if !tupleOK {
+		rep.Count("graph:tuple-index-lost(F10)")
+	}
+	modelEntries := map[int]bool{}
+	for _, x := range splitInts(hyp["entries"]) {
+		modelEntries[x] = true
+	}
+	for _, e := range entries {
+		if !modelEntries[d.idOf[e]] {
+			rep.Fail(ck.key(in, "entry-not-in-model", sinkID(e.(*df.CallNodeArg).ParentNode())),
+				fmt.Sprintf("[%s] real analysis reports traces for %s, which the model's entry selection (entryArgs) does not contain", mode, d.describe(d.idOf[e])),
+				[]byte(in.src), true)
+		}
+	}
+	// --- per REAL trace: criterion + replay
+	realOrigins := map[int]map[int]bool{} // sink id -> markers in some trace
+	realEntryOf := map[int]bool{}
+	for _, e := range entries {
+		arg := e.(*df.CallNodeArg)
+		sid := sinkID(arg.ParentNode())
+		if arg.Index() == 0 || sid < 0 {
+			continue
+		}
+		realEntryOf[sid] = true
+		if realOrigins[sid] == nil {
+			realOrigins[sid] = map[int]bool{}
+		}
+		for _, t := range rr.res.Traces[e] {
+			originsOf(t, realOrigins[sid])
+		}
+	}
+	for i, tr := range trefs {
+		kv := parseKV(out[1+i])
+		t := rr.res.Traces[tr.entry][tr.idx]
+		arg := tr.entry.(*df.CallNodeArg)
+		sid := sinkID(arg.ParentNode())
+		rep.Count("real-trace")
+		rep.Count(fmt.Sprintf("real-trace-len<=%d", bucket(len(t))))
+		if len(t) > 0 {
+			rep.Count("trace-head:" + kindOf(t[0].GraphNode))
+		}
+		if kv["wf"] != "1" {
+			weak := "not even by the closure-trace jump"
+			if kv["weak"] == "1" {
+				weak = "only the closure-trace jump of the free-variable case explains it"
+			}
+			rep.Fail(ck.key(in, "illformed-trace", sid),
+				fmt.Sprintf("[%s] a REAL reported trace is not a connected sequence of dataflow steps ending at the entry argument (%s): %s", mode, weak, traceStr(d, t)),
+				[]byte(in.src+"\n/* trace: "+traceStr(d, t)+" */\n"), false)
+		} else if kv["replay"] != "1" {
+			rep.Fail(ck.key(in, "trace-not-model-path", sid),
+				fmt.Sprintf("[%s] correspondence M7 broken: a REAL trace is well-formed but is not a path of BackVisit.expand candidates: %s", mode, traceStr(d, t)),
+				[]byte(in.src+"\n/* trace: "+traceStr(d, t)+" */\n"), true)
+		}
+	}
+	// --- model runs (dump order): recorded for evidence; flags tell the proved domain
+	for i := range entries {
+		kv := parseKV(out[1+len(trefs)+i])
+		if kv["inc"] == "1" {
+			rep.Count("model:closure-trace-mismatch(F15)")
+		}
+		if kv["panic"] == "1" {
+			rep.Count("model:panics")
+		}
+		if kv["fin"] != "1" {
+			rep.Count("model:not-finished")
+		}
+	}
+	// --- ground truth: every observed origin occurs in some REAL trace of that argument
+	var sids []int
+	for sid := range truth {
+		sids = append(sids, sid)
+	}
+	sort.Ints(sids)
+	for _, sid := range sids {
+		ops := strings.Join(in.sinkOps[sid], ",")
+		key := ""
+		if len(truth[sid]) > 0 {
+			key = in.name + ":" + strconv.Itoa(sid) + ":" + ops
+		}
+		rep.Case(key)
+		rep.Count("sinks-checked-" + mode)
+		var miss []int
+		for k := range truth[sid] {
+			if !realOrigins[sid][k] {
+				miss = append(miss, k)
+			}
+		}
+		sort.Ints(miss)
+		if len(miss) > 0 {
+			what := fmt.Sprintf("[%s] origins %v reach the argument of sink(%d, ·) in a native run but occur in no reported trace (entry analysed: %v; reported origins %s; native %s; ops %s)",
+				mode, miss, sid, realEntryOf[sid], setStr(realOrigins[sid]), setStr(truth[sid]), ops)
+			rep.Fail(ck.key(in, "missed-origin", sid), what, []byte(in.src), false)
+		}
+		if len(rep.Samples) < 8 && len(truth[sid]) > 1 && mode == "eager" {
+			rep.Sample(map[string]any{"program": in.name, "sink": sid, "ops": ops, "native_origins": setStr(truth[sid]), "real_origins": setStr(realOrigins[sid])})
+		}
+	}
+}
+
+func traceStr(d *dump, t backtrace.Trace) string {
+	var ps []string
+	for _, tn := range t {
+		id, ok := d.idOf[tn.GraphNode]
+		if !ok {
+			ps = append(ps, "?")
+			continue
+		}
+		n := d.nodes[id]
+		ps = append(ps, fmt.Sprintf("%d%s@%d", n.id, n.kind, n.line))
+	}
+	return strings.Join(ps, " <- ")
+}
+
+func parseKV(line string) map[string]string {
+	m := map[string]string{}
+	for _, f := range strings.Fields(line) {
+		if i := strings.Index(f, "="); i > 0 {
+			m[f[:i]] = f[i+1:]
+		}
+	}
+	return m
+}
+
+func splitInts(s string) []int {
+	if s == "" || s == "-" {
+		return nil
+	}
+	var r []int
+	for _, p := range strings.Split(s, ",") {
+		if v, err := strconv.Atoi(p); err == nil {
+			r = append(r, v)
+		}
+	}
+	return r
+}
+
+func bucket(n int) int {
+	for _, b := range []int{1, 2, 4, 8, 16, 32, 64} {
+		if n <= b {
+			return b
+		}
+	}
+	return 1000
 }
 
 func explore(file string) {
@@ -59,7 +414,7 @@ func explore(file string) {
 	for _, od := range []bool{false, true} {
 		dir := lib.WorkDir("C03", "explore")
 		lib.WriteProgram(dir, "vprog", map[string]string{"main.go": string(src)})
-		rr := runReal(dir, od, "vprog")
+		rr := runReal(dir, od)
 		fmt.Printf("==== onDemand=%v err=%v panic=%q\n", od, rr.err, rr.panic)
 		if rr.d == nil {
 			continue
@@ -84,12 +439,7 @@ func explore(file string) {
 					}
 				}
 				if os.Getenv("C03_TRACES") != "" {
-					var ps []string
-					for _, tn := range t {
-						n := rr.d.nodes[rr.d.idOf[tn.GraphNode]]
-						ps = append(ps, fmt.Sprintf("%d%s@%d", n.id, n.kind, n.line))
-					}
-					fmt.Printf("   trace: %s\n", strings.Join(ps, " <- "))
+					fmt.Printf("   trace: %s\n", traceStr(rr.d, t))
 				}
 			}
 			var ls []int
@@ -102,12 +452,54 @@ func explore(file string) {
 	}
 }
 
+// corpus: replays of findings, run first (keys are fixed: corpus:<dir>:<what>)
+func corpusInputs() []*input {
+	var ins []*input
+	root := filepath.Join(lib.Root(), "corpus", "findings")
+	ents, _ := os.ReadDir(root)
+	for _, e := range ents {
+		if !e.IsDir() || !strings.HasPrefix(e.Name(), "C03_") {
+			continue
+		}
+		b, err := os.ReadFile(filepath.Join(root, e.Name(), "main.go"))
+		if err != nil {
+			continue
+		}
+		ins = append(ins, &input{name: e.Name(), src: string(b), corpus: true, sinkOps: map[int][]string{}})
+	}
+	return ins
+}
+
 func main() {
 	if f := os.Getenv("C03_FILE"); f != "" {
 		explore(f)
 		return
 	}
-	_ = filepath.Join
 	rep := lib.NewReport("C03")
+	rep.Rule = "import-free packages of independent cases: 1-2 origins (calls srcK(), constants passed as arguments) + random data operations (concat, helpers, tuples with one live component, recursion, fields, methods, interfaces, globals, closures reading/writing captured variables, function values, maps, slices, channels, pointer parameters, phi, loops, deferred result writes) + sinks (also inside helpers); distinct = (package, sink, operation list); non-trivial = some origin reaches the sink natively"
+	ck := &checker{rep: rep}
+	for _, in := range corpusInputs() {
+		rep.Count("corpus-inputs")
+		ck.check(in)
+	}
+	npk, ncases, maxOps := 3, 60, 5
+	if lib.Thorough() {
+		npk, ncases, maxOps = 24, 80, 8
+	}
+	if v := os.Getenv("C03_PKGS"); v != "" {
+		npk, _ = strconv.Atoi(v)
+	}
+	allowed := allowedOps()
+	for i := 0; i < npk; i++ {
+		r := lib.Rand(fmt.Sprintf("c03-pkg-%d", i))
+		src, p := genProgram(r, ncases, allowed, maxOps)
+		in := &input{name: fmt.Sprintf("p%d", i), src: src, sinkOps: p.sinkOps, features: p.feats}
+		for _, k := range sortedKeys(p.feats) {
+			rep.Dist["op:"+k] += p.feats[k]
+		}
+		ck.check(in)
+	}
+	rep.Extra["packages"] = npk
+	rep.Extra["cases_per_package"] = ncases
 	rep.Finish()
 }
